@@ -333,6 +333,9 @@ func (c *nxCluster) Canon() []byte {
 			b.U(n.appliedIndex, n.pushedIndex, n.confirmedIndex, n.sm.GetLastApplied(), h.usm.val, h.usm.version, h.lastUpdIdx)
 			b.Bool(h.pipe.step).Bool(h.pipe.apply).Bool(h.pipe.commit).Bool(h.pipe.save).Bool(h.pipe.recover).Bool(c.lazy[h.id]).Bool(c.scriptHold[h.id])
 			b.U(h.maxTermSent)
+			// the node's logical clock: deadlines are relative to it and ReadIndex
+			// contexts are stamped with it
+			b.U(n.pendingReadIndexes.getTick())
 		}
 		if ps := h.ps; ps != nil {
 			// the real worker pool, loaders and reference counts (RealPool configurations)
